@@ -149,6 +149,17 @@ def h_cross_le(ctx, va, vb, triggers_free=None):
     ctx.require(Iff(fresh(a) <= fresh(c), fresh(ua) <= fresh(c)), "cross-le-upgrades-left", "a(v_old) <= c(v_new) differs from upgrade(a) <= c")
     ctx.require(Iff(fresh(c) <= fresh(a), fresh(c) <= fresh(ua)), "cross-le-upgrades-right", "c(v_new) <= a(v_old) differs from c <= upgrade(a)")
     ctx.require(Iff(fresh(a) == fresh(c), False), "cross-eq", "kinds of different versions compare equal")
+    # a cross-version comparison / union / intersection must not change its operands: the same objects, used again,
+    # still equal an untouched copy (same version), hash alike, and order alike
+    a2, c2 = fresh(a), fresh(c)
+    first = a2 <= c2
+    _ = c2 <= a2
+    _ = a2.union(c2)
+    _ = a2.intersection(c2)
+    ctx.require(a2 == fresh(a), "cross-operand-changed", "a cross-version <= / union / intersection changed its older operand (it no longer equals an identically built kind)")
+    ctx.require(c2 == fresh(c), "cross-operand-changed-newer", "a cross-version <= / union / intersection changed its newer operand")
+    ctx.require(Iff(first, a2 <= c2), "cross-le-stable", "a(v_old) <= c(v_new) changes its answer when asked again on the same objects")
+    ctx.check(a2.version == lo and c2.version == hi, "cross-version-changed", "a cross-version operation changed the version of an operand")
     ctx.witness("cross")
 
 
